@@ -48,7 +48,9 @@ TIERS = {
 
 ASSUMPTIONS = [
     "monotone embedding of key classes into uint32 (harness/internal/abs KeyClasses, RandomKeyClasses) and its inverse, rank compression (abs.RankCompressor)",
-    "heartbeat age classes are concretised inside a testing/synctest bubble: fresh = 0..59 s, edge = exactly the 60 s timeout, stale = 61 s or more",
+    "heartbeat age classes are concretised inside a testing/synctest bubble, once with the clock on a whole second (fresh = 0..59 s, "
+    "edge = exactly the 60 s timeout, stale = 61 s or more) and once with the clock inside a second (replay: +500 ms, record: random ms; "
+    "fresh = <= 58 s + f, edge = 59 s + f, stale = 60 s + f, i.e. timeout < age < timeout + 1 s, or more)",
     "instances and zones may be renamed (Canon >= 1 universes enumerate one descriptor per renaming)",
     "default replication strategy; per-call replication factor <= configured one; ExcludedZones empty; token sets pairwise disjoint",
 ]
